@@ -587,6 +587,55 @@ def run_timing_case(ctx, index: int, *, salt="timing"):
     return [(sig, what, {**case, **extra}) for sig, what, extra in found], case
 
 
+# ---------------------------------------------------------------------------------------------
+# Fifth family: a static input is edited while the sub-plan that declares it is detached (its plan
+# step dropped in a build that fails, so that the cleanup is skipped), then the sub-plan comes back
+# ---------------------------------------------------------------------------------------------
+
+
+def run_detached_edit_case(ctx, index: int, *, salt="detached-edit"):
+    from simdirector import A, Project, plan_file
+
+    r = ctx.rng(salt, index)
+    watch = index % 2 == 1
+    ncons = r.randint(1, 2)
+    sub = [A.static("sub/in.txt")] + [A.step(f"copy {i}", inp=["sub/in.txt"], out=[f"sub/out{i}.txt"]) for i in range(ncons)]
+    plan1 = [A.static("sub.py"), A.step("./sub.py", inp=["sub.py"], plan=True)]
+    plan2 = [A.step("boom", out=["boom.txt"])]  # the sub-plan is gone and the build fails: no cleanup
+    scripts = {"./plan.py": plan1, "./sub.py": sub, "boom": [A.exit(1)]}
+    files = {"plan.py": plan_file(plan1), "sub.py": plan_file(sub), "sub/in.txt": "old\n"}
+    initial = Project(scripts=dict(scripts), files=dict(files))
+    edit = r.choice([("write", "sub/in.txt", "new\n"), ("write", "sub/in.txt", "new\n"), ("remove", "sub/in.txt")])
+    final_files = dict(files)
+    if edit[0] == "write":
+        final_files["sub/in.txt"] = edit[2]
+    else:
+        del final_files["sub/in.txt"]
+    final = Project(scripts=dict(scripts), files=final_files)
+    drop = [("script", "./plan.py", plan2, ""), ("write", "plan.py", plan_file(plan2))]
+    back = [("script", "./plan.py", plan1, ""), ("write", "plan.py", plan_file(plan1))]
+    first = {"njob": 1, "watch": True} if watch else {"njob": 1}
+    events = [("build", first), ("edits", drop)]
+    if not watch:
+        events.append(("build", {"njob": 1}))
+    if r.random() < 0.5 or watch:
+        events += [("edits", [edit]), ("edits", back)] if watch else [("edits", [edit] + back)]
+    else:
+        events += [("edits", [edit]), ("build", {"njob": 1}), ("edits", back)]  # one more failing build in between
+    events.append(("shutdown",) if watch else ("build", {"njob": 1}))
+    seed = r.randrange(1 << 30)
+    found, summary = evaluate(initial, events, final, seed, {"njob": 1})
+    mode = "watch" if watch else "restart"
+    case = {"family": "detached-edit", "mode": mode, "edit": list(edit[:2]), "consumers": ncons,
+            "compared": bool(summary.get("fresh_ok")) or edit[0] == "remove"}
+    out = []
+    for sig, what, extra in found:
+        if not sig.startswith(("out-of-scope:", "director-")):
+            sig = f"{sig}:static-input-edited-while-detached:{mode}"
+        out.append((sig, what, {**case, **extra, "events": buildkit.describe_events(events)}))
+    return out, case
+
+
 def report(ctx, index, salt, found, hist):
     for sig, what, extra in found:
         if sig.startswith("out-of-scope:"):
@@ -683,6 +732,21 @@ async def search(ctx):
                 "how": "props/c01.py run_timing_case(ctx, index): a producer/consumer project built without the "
                        "consumer, then the source is edited and the consumer (reads first, amends afterwards) is added; "
                        "rebuild with 3-5 jobs under a random schedule; compared with a one-job build from scratch"}))
+    for i in range(ctx.budget(8, 60)):
+        found, case = await asyncio.to_thread(run_detached_edit_case, ctx, i)
+        st.case(("detached-edit", case["mode"], tuple(case["edit"]), case["consumers"]), nontrivial=True)
+        st.programs += 1
+        st.count("detached-edit-histories:" + case["mode"])
+        for sig, what, extra in found:
+            if sig.startswith("out-of-scope:"):
+                st.count(sig)
+                continue
+            st.count("finding:" + sig)
+            ctx.finding(Finding(PID, sig, what, {
+                "case": {"verif_seed": ctx.seed, "salt": "detached-edit", "index": i}, **extra,
+                "how": "props/c01.py run_detached_edit_case(ctx, index): a sub-plan that declares a static input is "
+                       "dropped in a build that fails (no cleanup), the input is edited, the sub-plan is added back; "
+                       "compared with a build from scratch of the final sources"}))
     for i in range(ctx.budget(20, 250)):
         found, case = await asyncio.to_thread(run_redef_case, ctx, i)
         st.case(("redef", tuple(sorted((k, str(v)) for k, v in case.items()))))
@@ -733,6 +797,8 @@ async def replay(ctx, detail):
         found, summary = await asyncio.to_thread(run_redef_case, ctx, int(case.get("index", 0)))
     elif case.get("salt") == "tree":
         found, summary = await asyncio.to_thread(run_tree_case, ctx, int(case.get("index", 0)))
+    elif case.get("salt") == "detached-edit":
+        found, summary = await asyncio.to_thread(run_detached_edit_case, ctx, int(case.get("index", 0)))
     elif case.get("salt") == "timing":
         found, summary = await asyncio.to_thread(run_timing_case, ctx, int(case.get("index", 0)))
     else:
